@@ -49,7 +49,8 @@ func c20Sanitize(c *Ctx) {
 				}
 				copies++
 				key := e.Args[1]
-				inSet := false
+				// a key taken from the whitelist / default list itself is allowed by construction
+				inSet := key.Mentions(func(t *Term) bool { return t.Key() == wl.Key() || t.Op == "global" }) && !key.Mentions(func(t *Term) bool { return t.Op == "rangekey" })
 				// membership of the key in a fresh local set other than the destination (the set may have
 				// received no element on this path: the engine does not know the default list is non-empty)
 				for _, f := range p.Facts[:min(e.NFacts, len(p.Facts))] {
